@@ -115,7 +115,7 @@ inline PropSpec full_spec(const std::string& id, const Tier& t) {
   else if (id == "C16") {
     p.id = "C16"; p.enabled = O_2D | O_SOUND | O_LEAK | O_MEM; p.kind = 7; p.go = g;
     p.nontrivial = [](uint64_t f) { return ((f & F_DECODED) != 0) || ((f & F_UNSOLV_GEK) != 0); };
-    p.rule = "every (k, r) in 0..17 x 0..12 is offered to of_set_fec_parameters; for each accepted pair the check sets are read off the encoder on an identity payload (each repair built alone) and must form the d x l product structure; the encoder must satisfy every check on generated payloads; the decoder is run on every received subset (2^n; quick tier: complete for n <= 13, 5000 seeded patterns per larger code) through both submission APIs followed by finish, plus sampled orders and release points; non-trivial = pattern with a lost source that is recovered, or >= k received and not recoverable; distinct = distinct history text";
+    p.rule = "every (k, r) in 0..17 x 0..12 is offered to of_set_fec_parameters; for each accepted pair the check sets are read off the encoder on an identity payload (each repair built alone) and must form the d x l product structure; the encoder must satisfy every check on generated payloads; the decoder is run on every received subset (2^n; complete for n <= 13 in the quick tier and n <= 20 in the thorough tier, 5000 resp. 400000 seeded patterns per larger code) through both submission APIs followed by finish, plus sampled orders and release points; non-trivial = pattern with a lost source that is recovered, or >= k received and not recoverable; distinct = distinct history text";
   }
   return p;
 }
@@ -682,9 +682,9 @@ inline void enumerate(const std::string& prop, const Tier& t, int worker, int nw
   uint64_t idx = 0;
   for (auto& kr : accepted) {
     uint32_t k = kr.first, r = kr.second, n = k + r;
-    bool complete = t.thorough || n <= 13;
+    bool complete = t.thorough ? n <= 20 : n <= 13;
     uint64_t total = 1ull << n;
-    uint64_t count = complete ? total : 5000;
+    uint64_t count = complete ? total : (t.thorough ? 400000 : 5000);
     for (uint64_t q = 0; q < count; q++) {
       if ((idx++ % (uint64_t)nworkers) != (uint64_t)worker) continue;
       uint64_t mask = complete ? q : (mix2(mix2(seed, q), n) & (total - 1));
